@@ -51,7 +51,10 @@ class DominanceInfo:
                 self._dominance[b] = {b} | (
                     set[Block].intersection(*(self._dominance[p] for p in pred[b]))
                     if pred[b]
-                    else set()
+                    # A non-entry block without predecessors is unreachable: like any
+                    # other unreachable block it is vacuously dominated by all blocks,
+                    # so it never removes dominators from a reachable successor.
+                    else set(region.blocks)
                 )
                 if old != self._dominance[b]:
                     changed = True
